@@ -449,7 +449,7 @@ def apply_real(obj, op, arg):
         if op == "repeat":
             k = arg[0]
             reps = [obj.coord[..., 0] + np.float32(200000 * j) for j in range(k)]
-            x = np.stack(reps, axis=0)
+            x = np.stack(reps, axis=0) if k else np.empty((0,) + obj.coord[..., 0].shape, dtype=np.float32)
             co = np.stack([x, x / 2, -x], axis=-1).astype(np.float32)
             return struc.repeat(obj, co), "ok", []
         if op == "del_atom":
@@ -535,6 +535,35 @@ def apply_real(obj, op, arg):
             after = project(obj)
             ok = same and before == after
             return obj, "ok", "original_unchanged" if ok else f"changed(eq={same})"
+        if op == "derived_edit":
+            before = project(obj)
+            how = arg[0]
+            if how == "slice":
+                b = obj[..., 0:n] if kind == "stack" else obj[0:n]
+            elif how == "model":
+                b = (obj[0] if obj.stack_depth() >= 1 else obj[:, 0:n]) if kind == "stack" else obj[0:n]
+            elif how == "repeat1":
+                b = struc.repeat(obj, obj.coord[None].copy())
+            else:
+                b = struc.stack([obj]) if kind == "array" else obj[..., 0:n]
+            for c in b.get_annotation_categories():
+                a0 = b.get_annotation(c)
+                if a0.dtype.kind in "US":
+                    new = np.full(a0.shape, "?", dtype=a0.dtype)
+                elif a0.dtype.kind == "b":
+                    new = ~a0
+                else:
+                    new = (a0 + 3).astype(a0.dtype)
+                b.set_annotation(c, new)
+            # the bond list is edited only where indexing had to build a new one; stack() hands the first
+            # array's BondList object on by design (atoms.py: "Take bond list from first array"), so
+            # sharing of bond lists between a container and what is derived from it is not judged
+            if how == "slice" and b.bonds is not None and b.array_length() >= 2:
+                b.bonds.remove_bonds_to(0)
+                b.bonds.add_bond(0, b.array_length() - 1, 3)
+                b.bonds.remove_bond_order()
+            ok = project(obj) == before
+            return obj, "ok", "source_unchanged" if ok else "changed"
         if op == "poke_after_copy":
             c1 = obj.copy()
             c2 = c1.copy()
@@ -728,7 +757,7 @@ def gen_trace(item):
                          "take_then_overwrite",
                          "del_atom", "del_model", "set_atom", "set_model", "set_annot", "add_extra",
                          "del_extra", "set_bonds", "clear_bonds", "set_box", "clear_box", "copy",
-                         "copy_poke", "poke_after_copy", "from_template"])
+                         "copy_poke", "poke_after_copy", "derived_edit", "from_template"])
         if op == "index":
             if kind == "array":
                 if rng.random() < 0.8:
@@ -754,7 +783,7 @@ def gen_trace(item):
         elif op == "repeat":
             if n > item["nmax"] or n == 0:
                 continue
-            arg = [rng.randint(1, 3)]
+            arg = [rng.choice([0, 1, 1, 2, 2, 3])]
         elif op == "del_atom":
             if kind != "array":
                 continue
@@ -801,6 +830,8 @@ def gen_trace(item):
             arg = [rng.randint(1, 9)]
         elif op == "from_template":
             arg = [rng.randint(1, 3), rng.random() < 0.5]
+        elif op == "derived_edit":
+            arg = [rng.choice(["slice", "model", "repeat1", "stack1"])]
         else:
             arg = []
         progress({"op": op, "arg": arg, "events": len(events)})
@@ -983,7 +1014,7 @@ def _s2_graph(ctx, d, dotf, tag, limit, forms_required):
     need = {"new", "index", "concat", "rconcat", "to_stack", "repeat", "del_atom", "del_model", "set_atom",
             "swap_atoms", "take_then_overwrite",
             "set_model", "set_annot", "add_extra", "del_extra", "set_bonds", "clear_bonds", "set_box",
-            "clear_box", "copy", "copy_poke", "poke_after_copy", "from_template"}
+            "clear_box", "copy", "copy_poke", "poke_after_copy", "derived_edit", "from_template"}
     if need - set(ops_seen):
         raise Vacuity(f"operations never taken: {sorted(need - set(ops_seen))}")
     ctx.cov[f"{tag}transitions_per_op"] = ops_seen
